@@ -254,6 +254,91 @@ pub fn square_strategy() -> BoxedStrategy<u64> {
 }
 
 // ---------------------------------------------------------------------------------------------
+// giant sequences: kept as a compact description (a repeated unit plus a few point edits) so that a
+// replay file stays small; expanded when the case is executed. Lengths sit next to the thresholds
+// where fast paths, block-wise processing, narrow counters and fixed-width formatting change behaviour.
+
+#[derive(Clone, Debug, Serialize, Deserialize, PartialEq, Eq)]
+pub struct Giant {
+    pub unit: Bytes,
+    pub len: usize,
+    /// (position as a fraction of the length, mapped monotonically; byte written there)
+    pub edits: Vec<(u32, u8)>,
+}
+
+impl Giant {
+    pub fn expand(&self) -> Vec<u8> {
+        let u = &self.unit.0;
+        let mut out: Vec<u8> = if u.is_empty() { vec![b'A'; self.len] } else { u.iter().cycle().take(self.len).copied().collect() };
+        for &(f, b) in &self.edits {
+            if self.len > 0 {
+                let p = ((f as u128 * self.len as u128) >> 32) as usize;
+                out[p.min(self.len - 1)] = b;
+            }
+        }
+        out
+    }
+    /// the description as the Python worker expects it
+    pub fn to_json(&self) -> serde_json::Value {
+        serde_json::json!({"unit": crate::pyworker::hex(&self.unit.0), "len": self.len, "edits": self.edits})
+    }
+    pub fn label(&self) -> String {
+        let l = self.len;
+        let size = if l > (1 << 24) { ">2^24" } else if l > 4_000_000 { ">4M" } else if l > 2_000_000 { ">2M" } else if l > (1 << 20) { ">2^20" } else if l > (1 << 16) { ">2^16" } else { "<=2^16" };
+        format!("giant-{}-{}", if self.unit.0.len() <= 1 { "homopolymer" } else if self.unit.0.len() <= 8 { "short-period" } else { "long-unit" }, size)
+    }
+}
+
+/// lengths next to `thresholds` (a few below, at, a few above) or anywhere between lo and hi
+fn giant_len(lo: usize, hi: usize, thresholds: &[usize]) -> BoxedStrategy<usize> {
+    let th: Vec<usize> = thresholds.iter().copied().filter(|&t| t >= lo && t <= hi).collect();
+    if th.is_empty() {
+        return (lo..=hi).boxed();
+    }
+    prop_oneof![
+        3 => (select(th), -40i64..=40).prop_map(move |(t, d)| ((t as i64 + d).max(lo as i64) as usize).min(hi)),
+        2 => lo..=hi,
+        1 => (hi - (hi - lo) / 8)..=hi,
+    ]
+    .boxed()
+}
+
+/// a homopolymer of more than two million bases with one other base at its first or last position: one
+/// column holds all windows but one, a frequency that rounds to 1.000000 at 6 decimals without being 1
+pub fn giant_near_one(hi: usize) -> BoxedStrategy<Giant> {
+    (select(CLEAN.to_vec()), 2_000_100usize..=hi.max(2_000_200), select(vec![0u32, u32::MAX]), select(CLEAN.to_vec()), prop::bool::weighted(0.3), any::<u32>(), select(b"ACGTN".to_vec()))
+        .prop_map(|(b, len, pos, e, second, pos2, e2)| {
+            let mut edits = vec![(pos, e)];
+            if second {
+                edits.push((pos2, e2));
+            }
+            Giant { unit: Bytes(vec![b]), len, edits }
+        })
+        .boxed()
+}
+
+pub const GIANT_THRESHOLDS: &[usize] = &[1 << 16, 1 << 17, 1 << 18, 1 << 19, 1 << 20, (1 << 20) + (1 << 18), 1 << 21, 2_000_000, 2_500_000, 3_000_000, 1 << 22, 4_000_000, 1 << 23, 1 << 24];
+
+/// a giant sequence of lo..=hi bytes. `edit_bytes` are the bytes point edits may write.
+pub fn giant(lo: usize, hi: usize, edit_bytes: Vec<u8>) -> BoxedStrategy<Giant> {
+    let unit = prop_oneof![
+        4 => select(CLEAN.to_vec()).prop_map(|b| vec![b]),
+        2 => vec(select(CLEAN.to_vec()), 2..=8),
+        1 => vec(select(b"AT".to_vec()), 2..=6),
+        3 => vec(select(CLEAN.to_vec()), 40..=400),
+        1 => vec(select(CASE_U.to_vec()), 10..=100),
+    ];
+    // edits: none, one at the very end / start (spoils exactly one window), a handful anywhere
+    let pos = prop_oneof![2 => Just(u32::MAX), 1 => Just(0u32), 1 => Just(u32::MAX - 2), 4 => any::<u32>()];
+    let edits = prop_oneof![
+        1 => Just(Vec::new()).boxed(),
+        4 => vec((pos.clone(), select(edit_bytes.clone())), 1).boxed(),
+        3 => vec((pos, select(edit_bytes)), 2..=6).boxed(),
+    ];
+    (unit, giant_len(lo, hi, GIANT_THRESHOLDS), edits).prop_map(|(unit, len, edits)| Giant { unit: Bytes(unit), len, edits }).boxed()
+}
+
+// ---------------------------------------------------------------------------------------------
 // records and containers
 
 #[derive(Clone, Debug, Serialize, Deserialize, PartialEq, Eq)]
